@@ -1,5 +1,6 @@
 import Setec.Driver.Util
 import Setec.Model.Cli
+import Setec.Model.Base64
 /- Driver for the `cli` and `bytes` trace families (C18). -/
 namespace Setec.Driver
 open Setec.Cli
@@ -27,6 +28,17 @@ def cliLine (st : CliRun) (lineNo : Nat) (line : String) : Except String (CliRun
       let key := s!"cli:{get "valid"}:{if trimmed.length == value.length then "clean" else "spaced"}:{if value.isEmpty then "empty" else "nonempty"}:v{get "verbatim"}t{get "trim"}e{get "emptyok"}:{get "src"}:{if get "exit" == "0" then "sent" else "refused"}"
       .ok ({ st with cases := st.cases + 1, fails := st.fails + outs.length, cover := bump st.cover key }, outs)
     | _, _ => .error s!"line {lineNo}: bad hex"
+  | "b64" :: rest =>
+    let fs := fields rest
+    let get := fun k => (lookup fs k).getD ""
+    match unhex (get "raw"), unhexStr (get "enc") with
+    | some raw, some enc =>
+      let mine := String.ofList (Setec.Base64.encode raw)
+      let back := Setec.Base64.decode enc.toList
+      let outs := (if mine == enc then [] else [s!"DIVERGE base64_encode line={lineNo} raw={get "raw"} go={enc} lean={mine}"]) ++
+                  (if back == some raw then [] else [s!"DIVERGE base64_decode line={lineNo} raw={get "raw"} enc={enc}"])
+      .ok ({ st with cases := st.cases + 1, diverges := st.diverges + outs.length, cover := bump st.cover s!"b64:len%3={raw.length % 3}" }, outs)
+    | _, _ => .error s!"line {lineNo}: bad b64 line"
   | "bytes" :: rest =>
     let fs := fields rest
     let get := fun k => (lookup fs k).getD ""
